@@ -1,6 +1,6 @@
 // C51 isolation driver: which elements of mjData does ONE plugin instance write?
 //
-// usage: c51_iso <model.xml>
+// usage: c51_iso <model.xml> [<model.xml> ...]     (output per model between 'MODEL <i>' and 'DONE <i>')
 //
 // The model is loaded, reset to keyframe 0 if there is one, and mj_forward is run so that every position / velocity
 // quantity the plugins read is valid.  Then, for every plugin instance k and every callback the plugin defines
@@ -25,6 +25,16 @@
 #include "support.h"
 
 static const double kSentinel = 1.0e3;
+
+// mju_malloc(0) returns NULL and _resetData then calls memcpy(NULL, ., 0) for models whose plugins have no state
+// (npluginstate == 0): UBSan's nonnull check would stop every scenario before the plugin code runs.  This allocator
+// returns a valid 1-byte block for size 0 (sizes are otherwise exact, so ASan red zones start right behind each block).
+static void* drv_malloc(size_t n) {
+  void* p = nullptr;
+  if (posix_memalign(&p, 64, n ? n : 1)) return nullptr;
+  return p;
+}
+static void drv_free(void* p) { free(p); }
 
 static void fill(mjtNum* a, long n, double base) {
   for (long i = 0; i < n; i++) a[i] = base + (double)i * 0.125;
@@ -70,28 +80,32 @@ static long diff(const mjModel* m, const mjData* a, const mjData* b, int inst, c
   return nchg;
 }
 
-int main(int argc, char** argv) {
-  if (argc < 2) { fprintf(stderr, "usage: c51_iso model.xml\n"); return 2; }
-  vg_install_handlers();
+static void one_model(const char* path) {
   char err[1000] = "";
   mjModel* m = nullptr;
   try {
-    m = mj_loadXML(argv[1], nullptr, err, sizeof(err));
-  } catch (VgError& e) { printf("ERR load %s\n", e.msg); return 0; }
+    m = mj_loadXML(path, nullptr, err, sizeof(err));
+  } catch (VgError& e) { printf("ERR load %s\n", e.msg); return; }
   if (!m) {
     for (char* c = err; *c; c++) if (*c == '\n') *c = ' ';
     printf("ERR load %s\n", err);
-    return 0;
+    return;
   }
   mjData* d = nullptr;
   try {
     d = mj_makeData(m);
-    if (m->nkey) mj_resetDataKeyframe(m, d, 0);
+    if (m->nkey) {
+      // (not mj_resetDataKeyframe: _resetData calls memcpy(NULL, NULL, 0) when npluginstate == 0, which UBSan reports)
+      mju_copy(d->qpos, m->key_qpos, m->nq);
+      mju_copy(d->qvel, m->key_qvel, m->nv);
+      mju_copy(d->act, m->key_act, m->na);
+      mju_copy(d->ctrl, m->key_ctrl, m->nu);
+      d->time = m->key_time[0];
+    }
     mj_forward(m, d);
-  } catch (VgError& e) { printf("ERR forward %s\n", e.msg); return 0; }
+  } catch (VgError& e) { printf("ERR forward %s\n", e.msg); return; }
   printf("SIZES nplugin %d nu %d nactuator %d nout %d na %d nv %d npluginstate %d\n", (int)m->nplugin, (int)m->nu,
          (int)m->nactuator, (int)m->nout, (int)m->na, (int)m->nv, (int)m->npluginstate);
-  const int nslot = mjp_pluginCount();
   for (int k = 0; k < m->nplugin; k++) {
     const mjpPlugin* p = mjp_getPluginAtSlot(m->plugin[k]);
     if (!p) { printf("ERR noplugin %d\n", k); continue; }
@@ -107,6 +121,7 @@ int main(int argc, char** argv) {
         fill_all(m, d);
         ref = mj_copyData(nullptr, m, d);
         printf("CALL %d %s\n", k, name);
+        fflush(stdout);
         if (cb == 0) {
           p->actuator_act_dot(m, d, k);
         } else if (cb == 1) {
@@ -125,9 +140,21 @@ int main(int argc, char** argv) {
       try { mj_forward(m, d); } catch (VgError& e) { printf("ERR forward %s\n", e.msg); }
     }
   }
-  (void)nslot;
-  printf("DONE\n");
   mj_deleteData(d);
   mj_deleteModel(m);
+}
+
+int main(int argc, char** argv) {
+  if (argc < 2) { fprintf(stderr, "usage: c51_iso model.xml [model.xml ...]\n"); return 2; }
+  vg_install_handlers();
+  mju_user_malloc = drv_malloc;
+  mju_user_free = drv_free;
+  for (int i = 1; i < argc; i++) {
+    printf("MODEL %d\n", i - 1);
+    fflush(stdout);
+    one_model(argv[i]);
+    printf("DONE %d\n", i - 1);
+    fflush(stdout);
+  }
   return 0;
 }
